@@ -718,6 +718,28 @@ def def_table(tree: ast.Module, modname: str):
     return out
 
 
+def nested_table(tree: ast.Module, modname: str):
+    """qualified name `outer.inner` -> (inner def, outer def, block holding
+    the inner def) for functions defined directly inside a module-level
+    function or method (one level)"""
+    out = {}
+    for q, (f, _c, _b) in def_table(tree, modname).items():
+        for _o, _f, blk in _blocks(f):
+            for st in blk:
+                if isinstance(st, (ast.FunctionDef, ast.AsyncFunctionDef)) \
+                        and st is not f:
+                    # directly inside f, not inside another nested def
+                    owner = f
+                    for x in ast.walk(f):
+                        if x is not f and x is not st and isinstance(
+                                x, (ast.FunctionDef, ast.AsyncFunctionDef)) \
+                                and any(y is st for y in ast.walk(x)):
+                            owner = x
+                    if owner is f:
+                        out.setdefault(f'{q}.{st.name}', (st, f, blk))
+    return out
+
+
 def _own_nodes(fn):
     """nodes of fn's own body, nested function bodies excluded"""
     todo = list(fn.body)
@@ -1241,7 +1263,8 @@ def _hoist_nested_call(blk, i, is_target, uid) -> bool:
 
 
 def undo_extractions(tree: ast.Module, modname: str, known: Set[str],
-                     other_sources=None, base_funcs=None) -> int:
+                     other_sources=None, base_funcs=None,
+                     known_nested: Optional[Set[str]] = None) -> int:
     """Inline functions that are not in `known` (the baseline's function
     table of this module) at their call sites in this module."""
     defs = def_table(tree, modname)
@@ -1255,6 +1278,13 @@ def undo_extractions(tree: ast.Module, modname: str, known: Set[str],
             done += unroll_new_table_loops(
                 f, (base_funcs.get(q) or {}).get('l', {}))
     new = {q: v for q, v in defs.items() if q not in known}
+    # closures the baseline function did not have: helpers of one function
+    enclosing = {}
+    if known_nested is not None:
+        for q, (h, outer, blk) in nested_table(tree, modname).items():
+            if q not in known_nested and q.rsplit('.', 1)[0] in known:
+                new[q] = (h, None, blk)
+                enclosing[id(h)] = outer
     if not new:
         return done
     uid = 0
@@ -1264,6 +1294,10 @@ def undo_extractions(tree: ast.Module, modname: str, known: Set[str],
         mode = _inlinable(h)
         if not mode:
             continue
+        if id(h) in enclosing:
+            # a closure must not rebind names of the enclosing function
+            if any(isinstance(n, ast.Nonlocal) for n in ast.walk(h)):
+                continue
         is_async = isinstance(h, ast.AsyncFunctionDef)
         is_static = any(isinstance(d, ast.Name) and d.id == 'staticmethod'
                         for d in h.decorator_list)
@@ -1272,6 +1306,10 @@ def undo_extractions(tree: ast.Module, modname: str, known: Set[str],
         call_funcs = set()
         owners = [v[0] for qq, v in def_table(tree, modname).items()
                   if v[0] is not h]
+        scope_root = tree
+        if id(h) in enclosing:
+            owners = [enclosing[id(h)]]
+            scope_root = enclosing[id(h)]
 
         def _is_h(c, h=h, hcls=hcls):
             f = c.func
@@ -1292,6 +1330,8 @@ def undo_extractions(tree: ast.Module, modname: str, known: Set[str],
         for caller in owners:
             for _o, _f, blk in list(_blocks(caller)):
                 for st in blk:
+                    if any(y is st for y in ast.walk(h)):
+                        continue
                     c, form = _call_of(st, is_async)
                     if c is None:
                         continue
@@ -1310,7 +1350,7 @@ def undo_extractions(tree: ast.Module, modname: str, known: Set[str],
                             continue
                         sites.append((caller, blk, st, c, form, recv))
                         call_funcs.add(id(f))
-        for x in ast.walk(tree):
+        for x in ast.walk(scope_root):
             if isinstance(x, ast.Name) and x.id == h.name and \
                     id(x) not in call_funcs and hcls is None:
                 other += 1
@@ -1349,8 +1389,8 @@ def undo_extractions(tree: ast.Module, modname: str, known: Set[str],
                 renumber(caller)
             else:
                 ok_all = False
-        if ok_all and other == 0 and not (other_sources and any(
-                h.name in s for s in other_sources)):
+        if ok_all and other == 0 and (id(h) in enclosing or not (
+                other_sources and any(h.name in s for s in other_sources))):
             try:
                 container.remove(h)
                 if not container:
